@@ -1,63 +1,233 @@
 import GeomV.C10.GeomTransform
 /-!
-# C10 model, part 3 (partial): `Transform` on Go memory, for the clause "leaves the input untouched"
+# C10 model, part 3: the eight `Transform` methods on Go memory ("leaves the input untouched")
 
-The functional model of part 1 cannot say anything about the input's backing arrays.  Here the
-point-slice types (`LineString`, `MultiPoint`, and each ring of a `Polygon`) live in a memory of
-backing arrays; a slice value is the address of its array.  `lineStringM` is
-`l2 := make(LineString, len(l)); for i, p := range l { …; l2[i] = p2 }` with every read and write
-going through memory, so that an aliasing bug (writing through the input's array, or returning it)
-would be visible.  Core Lean only.
+The functional model of part 1 cannot say anything about backing arrays.  Here every slice-typed
+geometry is a slice HEADER `(addr, off, len)` into a memory of backing arrays, so inputs whose members
+share a backing array, are windows of one buffer or prefixes of one another are ordinary memories:
+
+* `pts`    backing arrays of `[]Point`            (LineString, MultiPoint, Path)
+* `paths`  backing arrays of point-slice headers  (`[]LineString` of a MultiLineString, `[]Path` of a Polygon)
+* `polys`  backing arrays of path-slice headers   (`[]Polygon` of a MultiPolygon)
+* `geoms`  backing arrays of interface values     (`[]Geom` of a GeometryCollection)
+* `bnds`   `Bounds` structs                       (`*Bounds` is an index)
+
+Each method is transcribed with every `make`, every read `x[i]` and every write `y[i] = …` going
+through memory, in the order of the Go source (e.g. `Polygon.Transform` stores the header of the new ring
+BEFORE filling it).  Memory is returned on every path (success, transformer error, panic).
+`GeometryCollection.Transform` recurses through memory, hence the fuel: a collection that (through
+pointers) contains itself recurses forever in Go as well (`Fault.recursion`).
+Core Lean only.
 -/
 namespace GeomV.C10.Mem
 open GeomV GeomV.C10
 
-/-- backing arrays of `[]Point` values, by address -/
-abbrev Mem (α : Type) := List (List (Pt α))
+structure Slice where
+  addr : Nat
+  off : Nat
+  len : Nat
+deriving Repr, DecidableEq, Inhabited
 
-variable {E α : Type}
+/-- an interface value of type `geom.Geom` as stored in memory -/
+inductive MGeom (α : Type) where
+  | point (p : Pt α)
+  | multiPoint (s : Slice)         -- into `pts`
+  | lineString (s : Slice)         -- into `pts`
+  | multiLineString (s : Slice)    -- into `paths`
+  | polygon (s : Slice)            -- into `paths`
+  | multiPolygon (s : Slice)       -- into `polys`
+  | collection (s : Slice)         -- into `geoms`
+  | bounds (a : Nat)               -- into `bnds`
+  | nil
+deriving Repr, Inhabited
 
-/-- `make([]Point, n)`: a new zeroed array at the next free address -/
-def make (zero : Pt α) (n : Nat) (m : Mem α) : Nat × Mem α := (m.length, m ++ [List.replicate n zero])
+structure Mem (α : Type) where
+  pts : List (List (Pt α))
+  paths : List (List Slice)
+  polys : List (List Slice)
+  geoms : List (List (MGeom α))
+  bnds : List (Pt α × Pt α)
 
-/-- `a[i]` -/
-def get (m : Mem α) (a i : Nat) : Except (Fail E) (Pt α) :=
-  match m[a]? with
+variable {E α β : Type}
+
+/-! ## one area of backing arrays -/
+
+/-- `x[i]` where `x` is the array at address `a` -/
+def aGet (ar : List (List β)) (a i : Nat) : Except (Fail E) β :=
+  match ar[a]? with
   | none => .error (.panic .nilDeref)
   | some arr =>
     match arr[i]? with
     | none => .error (.panic .index)
-    | some p => .ok p
+    | some v => .ok v
 
-/-- `a[i] = v` -/
-def set (m : Mem α) (a i : Nat) (v : Pt α) : Except (Fail E) (Mem α) :=
-  match m[a]? with
+/-- `x[i] = v` -/
+def aSet (ar : List (List β)) (a i : Nat) (v : β) : Except (Fail E) (List (List β)) :=
+  match ar[a]? with
   | none => .error (.panic .nilDeref)
-  | some arr => if i < arr.length then .ok (m.set a (arr.set i v)) else .error (.panic .index)
+  | some arr => if i < arr.length then .ok (ar.set a (arr.set i v)) else .error (.panic .index)
 
-/-- the loop `for i := i; i < i + n; i++ { p := l[i]; p2, err := t(p); if err != nil {return}; l2[i] = p2 }`
-(`n` iterations left); memory is returned on every path -/
-def loop (t : TF E α) (a a2 : Nat) : Nat → Nat → Mem α → Mem α × Except (Fail E) Unit
+/-- a new array with the given contents at the next free address (`make` = all zero values) -/
+def aAlloc (ar : List (List β)) (arr : List β) : Nat × List (List β) := (ar.length, ar ++ [arr])
+
+/-- a computation on memory: new memory on every path -/
+abbrev M (E α β : Type) := Mem α → Mem α × Except (Fail E) β
+
+/-- `for i := i; i < i+n; i++ { body }` where an error ends the loop -/
+def loopN (body : Nat → M E α Unit) : Nat → Nat → M E α Unit
   | _, 0, m => (m, .ok ())
   | i, n+1, m =>
-    match get (E := E) m a i with
-    | .error e => (m, .error e)
-    | .ok p =>
-      match t p with
-      | .error e => (m, .error (.err e))
-      | .ok q =>
-        match set (E := E) m a2 i q with
-        | .error e => (m, .error e)
-        | .ok m' => loop t a a2 (i+1) n m'
+    match body i m with
+    | (m', .ok ()) => loopN body (i+1) n m'
+    | (m', .error e) => (m', .error e)
 
-/-- `LineString.Transform(t)` (t ≠ nil) for the slice at address `a`: address of the result -/
-def lineStringM (zero : Pt α) (t : TF E α) (a : Nat) (m : Mem α) : Mem α × Except (Fail E) Nat :=
-  match m[a]? with
+def zeroSlice : Slice := ⟨0, 0, 0⟩
+
+/-! ## the methods (t ≠ nil) -/
+
+/-- `p := l[i]; p2, err := t(p); if err != nil {return}; l2[i] = p2` -/
+def ptsBody (t : TF E α) (s : Slice) (dst : Nat) (i : Nat) : M E α Unit := fun m =>
+  match aGet (E := E) m.pts s.addr (s.off + i) with
+  | .error e => (m, .error e)
+  | .ok p =>
+    match t p with
+    | .error e => (m, .error (.err e))
+    | .ok q =>
+      match aSet (E := E) m.pts dst i q with
+      | .error e => (m, .error e)
+      | .ok pts' => ({ m with pts := pts' }, .ok ())
+
+/-- `LineString.Transform`: `l2 := make(LineString, len(l))` + loop; the header of `l2`.
+(`MultiPoint.Transform` has the same memory behaviour: `p.Transform(t)` works on the value `p`.) -/
+def lineStringM (zero : Pt α) (t : TF E α) (s : Slice) : M E α Slice := fun m =>
+  let (a2, pts1) := aAlloc m.pts (List.replicate s.len zero)
+  match loopN (ptsBody t s a2) 0 s.len { m with pts := pts1 } with
+  | (m2, .ok ()) => (m2, .ok ⟨a2, 0, s.len⟩)
+  | (m2, .error e) => (m2, .error e)
+
+/-- outer loop body of `Polygon.Transform`: `p2[i] = make([]Point, len(r))`, then the inner loop -/
+def ringBody (zero : Pt α) (t : TF E α) (s : Slice) (dst : Nat) (i : Nat) : M E α Unit := fun m =>
+  match aGet (E := E) m.paths s.addr (s.off + i) with
+  | .error e => (m, .error e)
+  | .ok r =>
+    let (a2, pts1) := aAlloc m.pts (List.replicate r.len zero)
+    match aSet (E := E) m.paths dst i ⟨a2, 0, r.len⟩ with
+    | .error e => ({ m with pts := pts1 }, .error e)
+    | .ok paths1 => loopN (ptsBody t r a2) 0 r.len { m with pts := pts1, paths := paths1 }
+
+/-- `Polygon.Transform`: `p2 := make(Polygon, len(p))` + loop -/
+def polygonM (zero : Pt α) (t : TF E α) (s : Slice) : M E α Slice := fun m =>
+  let (dst, paths1) := aAlloc m.paths (List.replicate s.len zeroSlice)
+  match loopN (ringBody zero t s dst) 0 s.len { m with paths := paths1 } with
+  | (m2, .ok ()) => (m2, .ok ⟨dst, 0, s.len⟩)
+  | (m2, .error e) => (m2, .error e)
+
+/-- loop body of `MultiLineString.Transform`: `g, err := l.Transform(t); …; ml2[i] = g.(LineString)` -/
+def mlsBody (zero : Pt α) (t : TF E α) (s : Slice) (dst : Nat) (i : Nat) : M E α Unit := fun m =>
+  match aGet (E := E) m.paths s.addr (s.off + i) with
+  | .error e => (m, .error e)
+  | .ok l =>
+    match lineStringM zero t l m with
+    | (m1, .error e) => (m1, .error e)
+    | (m1, .ok hdr) =>
+      match aSet (E := E) m1.paths dst i hdr with
+      | .error e => (m1, .error e)
+      | .ok paths' => ({ m1 with paths := paths' }, .ok ())
+
+def multiLineM (zero : Pt α) (t : TF E α) (s : Slice) : M E α Slice := fun m =>
+  let (dst, paths1) := aAlloc m.paths (List.replicate s.len zeroSlice)
+  match loopN (mlsBody zero t s dst) 0 s.len { m with paths := paths1 } with
+  | (m2, .ok ()) => (m2, .ok ⟨dst, 0, s.len⟩)
+  | (m2, .error e) => (m2, .error e)
+
+/-- loop body of `MultiPolygon.Transform` -/
+def mpgBody (zero : Pt α) (t : TF E α) (s : Slice) (dst : Nat) (i : Nat) : M E α Unit := fun m =>
+  match aGet (E := E) m.polys s.addr (s.off + i) with
+  | .error e => (m, .error e)
+  | .ok p =>
+    match polygonM zero t p m with
+    | (m1, .error e) => (m1, .error e)
+    | (m1, .ok hdr) =>
+      match aSet (E := E) m1.polys dst i hdr with
+      | .error e => (m1, .error e)
+      | .ok polys' => ({ m1 with polys := polys' }, .ok ())
+
+def multiPolyM (zero : Pt α) (t : TF E α) (s : Slice) : M E α Slice := fun m =>
+  let (dst, polys1) := aAlloc m.polys (List.replicate s.len zeroSlice)
+  match loopN (mpgBody zero t s dst) 0 s.len { m with polys := polys1 } with
+  | (m2, .ok ()) => (m2, .ok ⟨dst, 0, s.len⟩)
+  | (m2, .error e) => (m2, .error e)
+
+/-- `(*Bounds).Transform`: the literal `Polygon{{b.Min, {b.Max.X, b.Min.Y}, b.Max, {b.Min.X, b.Max.Y}}}`
+(two new arrays), then `Polygon.Transform` -/
+def boundsM (zero : Pt α) (t : TF E α) (a : Nat) : M E α Slice := fun m =>
+  match m.bnds[a]? with
   | none => (m, .error (.panic .nilDeref))
-  | some l =>
-    let (a2, m1) := make zero l.length m
-    match loop t a a2 0 l.length m1 with
-    | (m2, .ok ()) => (m2, .ok a2)
-    | (m2, .error e) => (m2, .error e)
+  | some (mn, mx) =>
+    let (a1, pts1) := aAlloc m.pts [mn, ⟨mx.x, mn.y⟩, mx, ⟨mn.x, mx.y⟩]
+    let (r1, paths1) := aAlloc m.paths [(⟨a1, 0, 4⟩ : Slice)]
+    polygonM zero t ⟨r1, 0, 1⟩ { m with pts := pts1, paths := paths1 }
+
+/-- loop body of `GeometryCollection.Transform`: `gc2[i], err = g.Transform(t)` (`rec` = the dynamic call) -/
+def collBody (rec : MGeom α → M E α (MGeom α)) (s : Slice) (dst : Nat) (i : Nat) : M E α Unit := fun m =>
+  match aGet (E := E) m.geoms s.addr (s.off + i) with
+  | .error e => (m, .error e)
+  | .ok g =>
+    match rec g m with
+    | (m1, .error e) => (m1, .error e)
+    | (m1, .ok g') =>
+      match aSet (E := E) m1.geoms dst i g' with
+      | .error e => (m1, .error e)
+      | .ok geoms' => ({ m1 with geoms := geoms' }, .ok ())
+
+/-- dynamic dispatch `g.Transform(t)`, t ≠ nil -/
+def transformM (zero : Pt α) (t : TF E α) : Nat → MGeom α → M E α (MGeom α)
+  | 0, _, m => (m, .error (.panic .recursion))
+  | fuel+1, g, m =>
+    match g with
+    | .point p =>
+      match t p with
+      | .ok q => (m, .ok (.point q))
+      | .error e => (m, .error (.err e))
+    | .multiPoint s =>
+      match lineStringM zero t s m with
+      | (m', .ok h) => (m', .ok (.multiPoint h))
+      | (m', .error e) => (m', .error e)
+    | .lineString s =>
+      match lineStringM zero t s m with
+      | (m', .ok h) => (m', .ok (.lineString h))
+      | (m', .error e) => (m', .error e)
+    | .multiLineString s =>
+      match multiLineM zero t s m with
+      | (m', .ok h) => (m', .ok (.multiLineString h))
+      | (m', .error e) => (m', .error e)
+    | .polygon s =>
+      match polygonM zero t s m with
+      | (m', .ok h) => (m', .ok (.polygon h))
+      | (m', .error e) => (m', .error e)
+    | .multiPolygon s =>
+      match multiPolyM zero t s m with
+      | (m', .ok h) => (m', .ok (.multiPolygon h))
+      | (m', .error e) => (m', .error e)
+    | .bounds a =>
+      match boundsM zero t a m with
+      | (m', .ok h) => (m', .ok (.polygon h))
+      | (m', .error e) => (m', .error e)
+    | .nil => (m, .error (.panic .nilDeref))
+    | .collection s =>
+      -- gc2 := make(GeometryCollection, len(gc)); for i, g := range gc { gc2[i], err = g.Transform(t); … }
+      let (dst, geoms1) := aAlloc m.geoms (List.replicate s.len MGeom.nil)
+      match loopN (collBody (transformM zero t fuel) s dst) 0 s.len { m with geoms := geoms1 } with
+      | (m2, .ok ()) => (m2, .ok (.collection ⟨dst, 0, s.len⟩))
+      | (m2, .error e) => (m2, .error e)
+
+/-- `g.Transform(t)`: every method starts with `if t == nil { return self, nil }` -/
+def transformTop (zero : Pt α) (fuel : Nat) (t : Option (TF E α)) (g : MGeom α) : M E α (MGeom α) := fun m =>
+  match g with
+  | .nil => (m, .error (.panic .nilDeref))
+  | g =>
+    match t with
+    | none => (m, .ok g)
+    | some t => transformM zero t fuel g m
 
 end GeomV.C10.Mem
